@@ -18,7 +18,7 @@ INFO = {
     "outside": ["Textual widgets", "deprecated-name entries in the initial file (covered by C11)", "longer sequences"],
     "stubs": ["stand-in for MenuConfigApp's self (vk/ui.py)", "memfs"],
 }
-BUDGET = {"quick": 240, "thorough": 1500}
+BUDGET = {"quick": 240, "thorough": 1100}
 
 CONF = "/m/proj/sdkconfig"
 
